@@ -194,17 +194,35 @@ if __name__ == "__main__":
 
 
 def part_main(args, tmp):
+    """Every way of launching the parent's main (script file, -m module, -m package.module,
+    -c code) x start method: how often does the body of the main module run, and as what?"""
     res = []
-    for method in ("loky", "loky_init_main"):
-        script = os.path.join(tmp, f"script_{method}.py")
-        side = os.path.join(tmp, f"side_{method}.txt")
-        open(script, "w").write(SCRIPT)
-        env = dict(os.environ, VF_SIDE=side)
-        r = subprocess.run([sys.executable, script, method], env=env, stdin=subprocess.DEVNULL,
-                           stdout=subprocess.PIPE, stderr=subprocess.STDOUT, timeout=90)
-        lines = open(side).read().split("\n") if os.path.exists(side) else []
-        res.append(dict(method=method, rc=r.returncode, lines=[l for l in lines if l],
-                        ok="RESULT [1, 2, 3, 4]" in r.stdout.decode(errors="replace")))
+    os.makedirs(os.path.join(tmp, "vfpkg"))
+    open(os.path.join(tmp, "vfpkg", "__init__.py"), "w").close()
+    open(os.path.join(tmp, "vfpkg", "vfsub.py"), "w").write(SCRIPT)
+    open(os.path.join(tmp, "vfmainmod.py"), "w").write(SCRIPT)
+    for launch in ("script", "module", "package", "code"):
+        for method in ("loky", "loky_init_main"):
+            side = os.path.join(tmp, f"side_{launch}_{method}.txt")
+            env = dict(os.environ, VF_SIDE=side)
+            env["PYTHONPATH"] = tmp + os.pathsep + env.get("PYTHONPATH", "")
+            if launch == "script":
+                script = os.path.join(tmp, f"script_{method}.py")
+                open(script, "w").write(SCRIPT)
+                cmd = [sys.executable, script, method]
+            elif launch == "module":
+                cmd = [sys.executable, "-m", "vfmainmod", method]
+            elif launch == "package":
+                cmd = [sys.executable, "-m", "vfpkg.vfsub", method]
+            else:
+                cmd = [sys.executable, "-c", SCRIPT, method]
+            r = subprocess.run(cmd, env=env, stdin=subprocess.DEVNULL, cwd=tmp,
+                               stdout=subprocess.PIPE, stderr=subprocess.STDOUT, timeout=90)
+            lines = open(side).read().split("\n") if os.path.exists(side) else []
+            res.append(dict(method=method, launch=launch, rc=r.returncode,
+                            lines=[l for l in lines if l],
+                            ok="RESULT [1, 2, 3, 4]" in r.stdout.decode(errors="replace"),
+                            tail=r.stdout.decode(errors="replace")[-300:]))
     return res
 
 
